@@ -197,11 +197,19 @@ class Shim:
             raise Looping()
         fault = self.plan.get('fault')      # [k, errno] : the k-th library-boundary op fails
         faults = self.plan.get('faults')    # {opname: errno} persistent fault on every op of that name, optional path filter
-        rec = [name, args, None]
+        rec = [name, args, None, k]           # k = index of this library-boundary operation (fault plans address it)
         self.trace.append(rec)
         try:
+            if name in ('exists', 'lexists', 'isdir', 'isfile', 'islink', 'ismount', 'access', 'isatty', 'input'):
+                fault = faults = None           # these never raise OSError in CPython: they answer False
+                self_second = None
+            else:
+                self_second = self.plan.get('second')
             if fault is not None and k == fault[0]:
                 raise OSError(fault[1], os.strerror(fault[1]))
+            second = self_second
+            if second is not None and k == second[0]:
+                raise OSError(second[1], os.strerror(second[1]))
             if faults and name in faults:
                 spec = faults[name]
                 if not spec.get('path') or any(spec['path'] in str(a) for a in args):
